@@ -326,9 +326,6 @@ theorem nextToken_good (o : LexOpts) : ∀ inp : Bytes,
   | b :: rest => by
     have ih := nextToken_good o rest
     have hrec : GoodLex rest.length (nextToken o rest) := ⟨by omega, by omega, ih.2.2⟩
-    have hrec1 : GoodLex rest.length
-        ⟨(nextToken o rest).tok, (nextToken o rest).rest, (nextToken o rest).depth + 1⟩ :=
-      ⟨by simp; omega, by simp; omega, ih.2.2⟩
     suffices h : GoodLex rest.length (nextToken o (b :: rest)) by
       exact ⟨by simpa using h.1, by have := h.2.1; simp; omega, h.2.2⟩
     have hw := readWord_len (b :: rest)
@@ -409,7 +406,7 @@ theorem nextToken_good (o : LexOpts) : ∀ inp : Bytes,
       · exact shrinks_ok _ _ _ hr
     rw [if_neg c12]
     by_cases c13 : (b == 59) = true
-    · rw [if_pos c13]; exact hrec1
+    · rw [if_pos c13]; exact hrec
     rw [if_neg c13]
     by_cases c14 : isProblematic o b = true
     · rw [if_pos c14]
@@ -417,12 +414,77 @@ theorem nextToken_good (o : LexOpts) : ∀ inp : Bytes,
       · rw [if_pos c15]
         by_cases c16 : (dropWs rest).isEmpty = true
         · rw [if_pos c16]; exact hgoodErr
-        · rw [if_neg c16]; exact hrec1
+        · rw [if_neg c16]; exact hrec
       · rw [if_neg c15]; exact hgoodErr
     rw [if_neg c14]
     by_cases c17 : o.lenientSyntax = true
-    · rw [if_pos c17]; exact hrec1
+    · rw [if_pos c17]; exact hrec
     · rw [if_neg c17]; exact hgoodErr
+
+theorem lexOf_depth (x : Outcome (Tok × Bytes)) : (lexOf x).depth = 1 := by
+  cases x with
+  | ok p => obtain ⟨t, r⟩ := p; rfl
+  | err => rfl
+  | panic k => rfl
+  | diverge => rfl
+
+/-- one activation: the skips of `next_token` are iterations of its loop, not calls -/
+theorem nextToken_depth (o : LexOpts) : ∀ inp : Bytes, (nextToken o inp).depth = 1
+  | [] => rfl
+  | b :: rest => by
+    have ih := nextToken_depth o rest
+    unfold nextToken
+    by_cases c1 : isWs b = true
+    · rw [if_pos c1]; exact ih
+    rw [if_neg c1]
+    by_cases c2 : (b == 37) = true
+    · rw [if_pos c2]
+    rw [if_neg c2]
+    by_cases c3 : (b == 47) = true
+    · rw [if_pos c3]; exact lexOf_depth _
+    rw [if_neg c3]
+    by_cases c4 : (b == 40) = true
+    · rw [if_pos c4]; exact lexOf_depth _
+    rw [if_neg c4]
+    by_cases c5 : (b == 60) = true
+    · rw [if_pos c5]; split <;> first | rfl | exact lexOf_depth _
+    rw [if_neg c5]
+    by_cases c6 : (b == 62) = true
+    · rw [if_pos c6]; split <;> rfl
+    rw [if_neg c6]
+    by_cases c7 : (b == 91) = true
+    · rw [if_pos c7]
+    rw [if_neg c7]
+    by_cases c8 : (b == 93) = true
+    · rw [if_pos c8]
+    rw [if_neg c8]
+    by_cases c9 : (b == 116 || b == 102 || b == 110) = true
+    · rw [if_pos c9]; split; exact lexOf_depth _
+    rw [if_neg c9]
+    by_cases c10 : (b == 43 || b == 45 || isDigit b || b == 46) = true
+    · rw [if_pos c10]; exact lexOf_depth _
+    rw [if_neg c10]
+    by_cases c11 : (b == 82) = true
+    · rw [if_pos c11]
+    rw [if_neg c11]
+    by_cases c12 : isAlpha b = true
+    · rw [if_pos c12]; split; exact lexOf_depth _
+    rw [if_neg c12]
+    by_cases c13 : (b == 59) = true
+    · rw [if_pos c13]; exact ih
+    rw [if_neg c13]
+    by_cases c14 : isProblematic o b = true
+    · rw [if_pos c14]
+      by_cases c15 : o.lenientEncoding = true
+      · rw [if_pos c15]
+        by_cases c16 : (dropWs rest).isEmpty = true
+        · rw [if_pos c16]
+        · rw [if_neg c16]; exact ih
+      · rw [if_neg c15]
+    rw [if_neg c14]
+    by_cases c17 : o.lenientSyntax = true
+    · rw [if_pos c17]; exact ih
+    · rw [if_neg c17]
 
 /-- `fine` excludes panics -/
 theorem fine_not_panic {α} (x : Outcome α) (h : x.fine = true) : x.isPanic = false := by
